@@ -3,6 +3,7 @@ import H264.EscapeNoSC
 import H264.NalSrcProofs
 import H264.EndToEnd
 import H264.Sps
+import H264.SmallProofC12
 /-! # C12 — End to end: a chunked Annex B stream parses like its NALs parsed in isolation
 
 Composition of C01 (segmentation), C18 (shapes), C08 (accumulation), C02/C15 (what a reader drains from a chunked NAL).
@@ -76,5 +77,12 @@ theorem sps_inside_handler (units : List (Nat × UInt8 × List UInt8))
 /-- non-vacuity: a unit `67 | 42 80` (header 0x67, RBSP ending in a non-zero byte) satisfies the hypothesis -/
 example : (0x67 : UInt8) ≠ 0 ∧ ∃ x : UInt8, x ≠ 0 ∧ ([0x42, 0x80] : List UInt8).getLast? = some x :=
   ⟨by decide, 0x80, by decide, rfl⟩
+
+/-- **the whole pipeline, model = real code, by proof**: an SPS, a PPS, a P-slice and an SEI NAL unit as one Annex B stream, pushed
+through `AnnexBReader::accumulate` in two pieces cut at every position, then reset (the bytes and the real pipeline's results are
+part of this run's graph): the model pipeline — Annex B model, accumulator model, byte-reader model, parsers with the context they
+build — parses inside its handler exactly what the real pipeline parsed inside the real handler, for every cut -/
+theorem model_pipeline_reproduces_code :
+    (List.range (SmallProof.streamBytes.length + 1)).map SmallProof.streamRow = Generated.streamRows := SmallProof.stream_model_eq_code
 
 end C12
